@@ -255,6 +255,7 @@ io_status_t WebSocketMessageIOGateway :: DoInputImplementation(AbstractGatewayMe
          char c;
          const io_status_t readRet = GetDataIO()()->Read(&c, 1);  // 1 byte at a time, to avoid any chance of reading past the end of the HTTP section
          if (readRet.IsError()) {ret = readRet.GetStatus(); break;}
+         if (readRet.GetByteCount() <= 0) break;  // no more bytes available to read right now; we'll continue when more have arrived
 
          _receivedHTTPText += c;
          if (_receivedHTTPText.EndsWith("\r\n\r\n"))
@@ -572,9 +573,9 @@ status_t WebSocketMessageIOGateway :: CreateReplyFrame(const uint8 * data, uint3
    {
       // Clients must always mask the payloads they send to the server
       const uint32 mask = GetInsecurePseudoRandomNumber32();
-      flat.WriteInt32(mask);
-
       const uint8 * mask8 = reinterpret_cast<const uint8 *>(&mask);
+      flat.WriteBytes(mask8, sizeof(mask));  // the mask-bytes must go out in the same order that we apply them in, below (the receiver will use them in the order it receives them)
+
       MRETURN_ON_ERROR(_scratchMaskBuf.SetNumBytes(numBytes, false));
       uint8 * payloadBytes = _scratchMaskBuf.GetBuffer();
       for (uint32 i=0; i<numBytes; i++) payloadBytes[i] = data[i] ^ mask8[i%sizeof(mask)];
